@@ -394,7 +394,7 @@ fn main() {
             // an edit history on a parsed toml_edit document: `EDIT <hex text> <op>;<op>;...`, op =
             // letter + dotted path of hex keys. T: new standard table under the table at the path,
             // A: push an element to the array of tables at the path (created if absent),
-            // V: new value in the table at the path, X: remove the entry at the path
+            // V: new value in the table at the path, S: sort_values on the table at the path, X: remove the entry at the path
             #[cfg(all(feature = "te_parse", feature = "te_display"))]
             {
                 use toml_edit::{ArrayOfTables, DocumentMut, Item, Table};
@@ -433,6 +433,12 @@ fn main() {
                             "V" => {
                                 if let Some(t) = nav(doc.as_table_mut(), &path) {
                                     t.insert(&format!("val{n}"), toml_edit::value(n));
+                                }
+                            }
+                            "S" => {
+                                // sort the body of the table by key (the order keys compare in)
+                                if let Some(t) = nav(doc.as_table_mut(), &path) {
+                                    t.sort_values();
                                 }
                             }
                             "A" => {
